@@ -16,7 +16,7 @@ import ast
 import re
 
 from ..facts import UNKNOWN, call_name, norm
-from ..util import is_call_named
+from ..util import expand_locals, is_call_named
 
 PKG = "src.linters.dry"
 
@@ -36,8 +36,12 @@ def check(run, ctx):
     writer_ok = before.endswith("(") and before.count("(") == 1 and after.startswith(" lines") and fld == bm.node.args.args[1].arg
     (run.ok(D1, "writer", f"{before!r}{{{fld}}}{after[:8]!r}") if writer_ok else run.finding(D1, "_build_message", f"template:{before!r}{{{fld}}}{after[:10]!r}", "the line count is no longer written as the first '(' <n> ' lines' group of the message", bm.loc))
     bv = repo.func(f"{PKG}.violation_builder.DRYViolationBuilder.build_violation")
-    lc = next((n.value for n in ast.walk(bv.node) if isinstance(n, ast.Assign) and ast.unparse(n.targets[0]) == "line_count"), None)
-    ok = lc is not None and ast.unparse(lc) in ("block.end_line - block.start_line + 1", "1 + block.end_line - block.start_line")
+    # roles, not names: the line count is whatever build_violation passes as the first argument of _build_message
+    bmc = next((c for c in ast.walk(bv.node) if is_call_named(c, "_build_message")), None)
+    run.require(bmc is not None and len(bmc.args) >= 2, "build_violation no longer calls _build_message(line_count, occurrence_count, ...)")
+    lc = expand_locals(bv.node, bmc.args[0])
+    blk = bv.node.args.args[1].arg
+    ok = lc is not None and ast.unparse(lc) in (f"{blk}.end_line - {blk}.start_line + 1", f"1 + {blk}.end_line - {blk}.start_line", f"1 + ({blk}.end_line - {blk}.start_line)")
     (run.ok(D1, "line_count value", "end_line - start_line + 1") if ok else run.finding(D1, "build_violation", f"line_count:{norm(lc) if lc is not None else None}", "the written line count is not end_line - start_line + 1", bv.loc))
     for fq in (f"{PKG}.violation_filter.ViolationFilter._extract_line_count", f"{PKG}.violation_generator.ViolationGenerator._extract_line_count"):
         f = repo.func(fq)
@@ -46,7 +50,7 @@ def check(run, ctx):
         (run.ok(D1, f"reader {f.cls.name}", f"between {idx[0]!r} and {idx[1]!r}") if ok else run.finding(D1, f"{f.cls.name}._extract_line_count", f"delimiters:{idx}", f"reader delimiters {idx} do not match the writer's {before[-1:]!r} ... {after[:6]!r}", f.loc))
 
     D2 = run.rule("D2", "occurrence count, 'Also found in' list and the per-block loop use one list", floor=3)
-    oc = next((n.value for n in ast.walk(bv.node) if isinstance(n, ast.Assign) and ast.unparse(n.targets[0]) == "occurrence_count"), None)
+    oc = expand_locals(bv.node, bmc.args[1])
     lr = next((n for n in ast.walk(bv.node) if is_call_named(n, "_get_location_refs")), None)
     p2 = bv.node.args.args[2].arg
     ok = oc is not None and ast.unparse(oc) == f"len({p2})" and lr is not None and len(lr.args) == 2 and ast.unparse(lr.args[1]) == p2
